@@ -85,11 +85,12 @@ pub fn op_name(op: &Op) -> &'static str {
         Op::ModelDeriv(_) => "ModelDeriv",
         Op::ConcurrentQueries(_) => "ConcurrentQueries",
         Op::ResultView => "ResultView",
+        Op::Marathon { .. } => "Marathon",
     }
 }
 
 pub fn is_update(op: &Op) -> bool {
-    matches!(op, Op::SetParams(_) | Op::Fit | Op::FitWithStatistics)
+    matches!(op, Op::SetParams(_) | Op::Fit | Op::FitWithStatistics | Op::Marathon { .. })
 }
 
 /// a "the model call fails" action appropriate for the model kind and call kind
@@ -139,6 +140,12 @@ pub fn expect_built(sc: &Scenario, rep: &mut crate::report::RunReport, build: &R
             rep.probe("built");
             if sc.builder_order >= 6 {
                 rep.probe("built_with_repeated_setter_calls");
+            }
+            if sc.ops.iter().any(|o| matches!(o, Op::Marathon { .. })) {
+                rep.probe("scenarios_with_marathon");
+            }
+            if sc.n() > 4096 {
+                rep.probe("giant_more_than_4096_samples");
             }
             if sc.model.nparams >= 65 {
                 rep.probe("giant_65_or_more_parameters");
@@ -279,4 +286,81 @@ pub fn concurrent_rule<T: crate::sc::Sc>(
     } else if without_jac > failed_in_callers {
         rep.violate(sc, class, site, format!("op {}: {without_jac} of {} simultaneous callers got no Jacobian although only {failed_in_callers} model call(s) failed while they ran", st.op, observed.len()));
     }
+}
+
+/// Consecutive updates that differ only in the *sign of a zero* (+0.0 == -0.0 compares equal,
+/// the bits and - for a model sensitive to it - the values differ). (1) after a `SetParams`
+/// with a zero component the same vector with that zero's sign flipped, half of the time;
+/// (2) in scenarios with the `TanhStep` family (tanh((x-x0)/w) is +-1 for w = +-0) a pair
+/// w = +0 / w = -0 on otherwise ordinary parameters, followed by a Jacobian query.
+/// Own PRNG stream: nothing else about the scenario changes.
+pub fn add_zero_sign_pairs(sc: &mut Scenario, rng: &mut Rng) {
+    let mut i = 0;
+    while i < sc.ops.len() {
+        if let Op::SetParams(a) = &sc.ops[i] {
+            if let Some(k) = a.iter().position(|v| v.0 == 0.0) {
+                if rng.chance(0.5) {
+                    let mut b = a.clone();
+                    b[k] = Fx(-b[k].0);
+                    sc.ops.insert(i + 1, Op::SetParams(b));
+                    i += 1;
+                }
+            }
+        }
+        i += 1;
+    }
+    let step = sc.model.funcs.iter().find(|f| f.family == Family::TanhStep).map(|f| f.params[1]);
+    if let Some(k) = step {
+        if rng.chance(0.6) && k < sc.alpha0.len() {
+            let mut a = sc.alpha0.clone();
+            let mut b = sc.alpha0.clone();
+            let first_negative = rng.chance(0.5);
+            a[k] = Fx(if first_negative { -0.0 } else { 0.0 });
+            b[k] = Fx(if first_negative { 0.0 } else { -0.0 });
+            let pos = rng.usize_in(0, sc.ops.len());
+            sc.ops.insert(pos, Op::SetParams(a));
+            sc.ops.insert(pos + 1, Op::SetParams(b));
+            sc.ops.insert(pos + 2, Op::Jacobian);
+        }
+    }
+}
+
+/// the parameter vector in effect after a `Marathon`
+pub fn marathon_last(count: u32, alphas: &[Vec<Fx>]) -> Option<&Vec<Fx>> {
+    if count == 0 || alphas.is_empty() {
+        None
+    } else {
+        alphas.get((count as usize - 1) % alphas.len())
+    }
+}
+
+/// Turn a *small* fault-free-able scenario into a marathon (1 in 1000 of them, hash-selected):
+/// 1 000 - 70 000 consecutive successful updates on the one problem (half of them beyond 2^16),
+/// cycling through two or three ordinary parameter vectors, inserted at a seeded position of
+/// the script. Faults are removed (occurrence-keyed triggers would all land inside it).
+pub fn maybe_marathon(sc: &mut Scenario, seed: u64, index: u64) {
+    let h = crate::prng::mix(seed, "marathon", index);
+    if h % 1000 != 0 || sc.n() > 12 || sc.model.m() > 3 || sc.s() > 2 || sc.alpha0.is_empty() {
+        return;
+    }
+    let mut rng = Rng::new(h);
+    let count = if rng.chance(0.5) { rng.usize_in(65_537, 70_000) } else { rng.log_uniform(3.0, 4.816) as usize } as u32;
+    let k = rng.usize_in(2, 3);
+    let alphas: Vec<Vec<Fx>> = (0..k)
+        .map(|i| {
+            sc.alpha0
+                .iter()
+                .map(|a| {
+                    let f = if i == 0 { 1.0 } else { 1.0 + rng.range(-0.05, 0.05) };
+                    Fx(match sc.width {
+                        Width::F64 => a.0 * f,
+                        Width::F32 => (a.0 * f) as f32 as f64,
+                    })
+                })
+                .collect()
+        })
+        .collect();
+    sc.faults.clear();
+    let pos = rng.usize_in(0, sc.ops.len());
+    sc.ops.insert(pos, Op::Marathon { count, alphas });
 }
